@@ -3,6 +3,7 @@ package c08
 import (
 	"bytes"
 	"fmt"
+	"strings"
 
 	"github.com/bronlabs/bron-crypto/pkg/base/serde"
 	"github.com/bronlabs/bron-crypto/pkg/commitments/hashcom"
@@ -10,7 +11,6 @@ import (
 	"github.com/bronlabs/bron-crypto/pkg/proofs/sigma/compiler/zk"
 
 	"verifmc/engine"
-	"verifmc/ref/cbor"
 )
 
 // challengeAlphabet is the 4-element challenge alphabet of the sigma-level checks: 0, 1, all-ones, a fixed pattern.
@@ -93,21 +93,29 @@ func sigmaLevel[X sigma.Statement, W sigma.Witness, A sigma.Statement, S sigma.S
 		}
 		sims++
 	}
-	x.Observe(c.name, "extracted", extracted, "simulated", sims, c.extract != nil)
+	x.Observe(c.name, " extracted ", extracted, " simulated ", sims, " extractor-exposed=", c.extract != nil)
 }
 
 // ---------------------------------------------------------------------------------------------
 // interactive zk compiler: honest run and every single message-leaf alteration
 
-type msgEdit struct {
-	msg  int    // 1 = verifier's challenge commitment, 2 = prover commitment a, 3 = opening (challenge, witness), 4 = response z
-	desc string // "" = none
-	// for msg 1/3: byte offset+bit in the raw bytes; for 2/4: an edited CBOR encoding
-	raw []byte
-}
+// zkEdit edits one message of the CURRENT run (errgroup workers may interleave reads of the shared randomness, so the
+// messages of two runs need not be byte-identical; edits are therefore always applied to the run's own message).
+type zkEdit func(msg int, raw []byte) []byte
 
 // zkOnce runs the 5-move protocol, substituting the edited message; it reports whether the verifier accepted.
-func zkOnce[X sigma.Statement, W sigma.Witness, A sigma.Statement, S sigma.State, Z sigma.Response](c *sigCase[X, W, A, S, Z], ed func(msg int, raw []byte) []byte) (accepted bool, stage string, msgs [5][]byte) {
+// stage "noop"/"exempt" = the edit did not change the message / re-encodes the very same value.
+// With screen set, an edited message whose decoded form has a nil component the original lacks stops the run with
+// stage "ISOLATE" (the caller repeats that run in a child process, see isolate_test.go).
+func zkOnce[X sigma.Statement, W sigma.Witness, A sigma.Statement, S sigma.State, Z sigma.Response](c *sigCase[X, W, A, S, Z], ed zkEdit, screen bool) (accepted bool, stage string, msgs [5][]byte) {
+	defer func() {
+		if r := recover(); r != nil {
+			if he, ok := r.(engine.HarnessError); ok {
+				panic(he)
+			}
+			accepted, stage = false, fmt.Sprintf("PANIC:%v", r)
+		}
+	}()
 	x0, w0 := c.inst(0)
 	pr, err := zk.NewProver(proverCtx().build(), c.mk(stream(c.name+"/zk/p")), x0, w0)
 	if err != nil {
@@ -131,9 +139,19 @@ func zkOnce[X sigma.Statement, W sigma.Witness, A sigma.Statement, S sigma.State
 	}
 	msgs[2] = must(serde.MarshalCBOR(a))
 	if b := ed(2, msgs[2]); b != nil {
+		if bytes.Equal(b, msgs[2]) {
+			return false, "noop", msgs
+		}
+		base := nilPaths(a)
 		a, err = serde.UnmarshalCBOR[A](b)
 		if err != nil {
 			return false, "decode-a:" + err.Error(), msgs
+		}
+		if np := nilPaths(a); screen && !sameStrings(np, base) {
+			return false, "ISOLATE:" + nilClass(base, np), msgs
+		}
+		if rb, err := serde.MarshalCBOR(a); err == nil && bytes.Equal(rb, msgs[2]) {
+			return false, "exempt", msgs
 		}
 	}
 	e, ew, err := ve.Round3(a)
@@ -151,9 +169,19 @@ func zkOnce[X sigma.Statement, W sigma.Witness, A sigma.Statement, S sigma.State
 	}
 	msgs[4] = must(serde.MarshalCBOR(z))
 	if b := ed(4, msgs[4]); b != nil {
+		if bytes.Equal(b, msgs[4]) {
+			return false, "noop", msgs
+		}
+		base := nilPaths(z)
 		z, err = serde.UnmarshalCBOR[Z](b)
 		if err != nil {
 			return false, "decode-z:" + err.Error(), msgs
+		}
+		if np := nilPaths(z); screen && !sameStrings(np, base) {
+			return false, "ISOLATE:" + nilClass(base, np), msgs
+		}
+		if rb, err := serde.MarshalCBOR(z); err == nil && bytes.Equal(rb, msgs[4]) {
+			return false, "exempt", msgs
 		}
 	}
 	if err := ve.Verify(z); err != nil {
@@ -162,18 +190,34 @@ func zkOnce[X sigma.Statement, W sigma.Witness, A sigma.Statement, S sigma.State
 	return true, "accept", msgs
 }
 
-func zkRun[X sigma.Statement, W sigma.Witness, A sigma.Statement, S sigma.State, Z sigma.Response](x *engine.X, c *sigCase[X, W, A, S, Z]) {
+// zkChildRun is the child-process side of an isolated interactive run.
+func zkChildRun[X sigma.Statement, W sigma.Witness, A sigma.Statement, S sigma.State, Z sigma.Response](c *sigCase[X, W, A, S, Z], m, idx int) (bool, string) {
+	_, _, msgs := zkOnce(c, func(int, []byte) []byte { return nil }, false)
+	eds := enumerateEdits(msgs[m], bitsAll, false)
+	if idx >= len(eds) {
+		return false, "HARNESS:edit index out of range"
+	}
+	acc, st, _ := zkOnce(c, func(msg int, raw []byte) []byte {
+		if msg != m {
+			return nil
+		}
+		return eds[idx].gen(newWalker(raw))
+	}, false)
+	return acc, st
+}
+
+func zkRun[X sigma.Statement, W sigma.Witness, A sigma.Statement, S sigma.State, Z sigma.Response](x *engine.X, c *sigCase[X, W, A, S, Z], n *niInst) {
 	none := func(int, []byte) []byte { return nil }
 	p := c.mk(stream(c.name + "/zk/params"))
 	// documented admission rule of the interactive compiler
 	admit := p.SoundnessError() >= 80 && p.GetChallengeBytesLength() <= 32
-	ok, stage, msgs := zkOnce(c, none)
+	ok, stage, msgs := zkOnce(c, none, true)
 	if !admit {
 		x.Case(c.name + "/zk/refusal")
 		if ok {
 			x.Failf("zk/admitted", "%s: zk compiler admitted a protocol outside its documented parameters (soundness %d, challenge %d bytes)", c.name, p.SoundnessError(), p.GetChallengeBytesLength())
 		}
-		x.Observe(c.name, "zk refused", stage)
+		x.Observe(c.name, " zk refused at ", stageKey(stage))
 		x.Trivial()
 		return
 	}
@@ -182,8 +226,21 @@ func zkRun[X sigma.Statement, W sigma.Witness, A sigma.Statement, S sigma.State,
 		x.Failf("zk/complete", "%s: honest interactive run rejected at %s", c.name, stage)
 		return
 	}
-	rejected, exempt := 0, 0
 	stages := map[string]int{}
+	record := func(m int, desc, class string, acc bool, st string) {
+		switch {
+		case strings.HasPrefix(st, "CRASH"):
+			x.Failf(st[:strings.IndexByte(st, ':')], "%s: the process was TERMINATED by a panic in a library goroutine although only message %d was edited (%s): %s", c.name, m, desc, st)
+		case strings.HasPrefix(st, "PANIC/"):
+			x.Failf(st[:strings.IndexByte(st, ':')], "%s: interactive run panicked although only message %d was edited (%s): %s", c.name, m, desc, st)
+		case strings.HasPrefix(st, "PANIC"):
+			x.Failf("panic/zk/msg"+fmt.Sprint(m)+"/"+panicClass(class, desc), "%s: interactive run panicked although only message %d was edited (%s): %s", c.name, m, desc, st)
+		case acc:
+			x.Failf("accepted/zk/msg"+fmt.Sprint(m), "%s: verifier ACCEPTED although message %d was edited: %s", c.name, m, desc)
+		default:
+			stages[stageKey(st)]++
+		}
+	}
 	// raw byte messages (1: challenge commitment, 3: challenge||opening witness): every bit
 	for _, m := range []int{1, 3} {
 		for bit := 0; bit < 8*len(msgs[m]); bit++ {
@@ -195,57 +252,39 @@ func zkRun[X sigma.Statement, W sigma.Witness, A sigma.Statement, S sigma.State,
 				out := append([]byte{}, raw...)
 				out[bit/8] ^= 0x80 >> (bit % 8)
 				return out
-			})
-			if acc {
-				x.Failf("zk/msg-edit-accepted", "%s: verifier accepted although message %d had bit %d flipped", c.name, m, bit)
-			} else {
-				rejected++
-				stages[stageKey(st)]++
-			}
+			}, true)
+			record(m, fmt.Sprintf("bit %d flipped", bit), "bit", acc, st)
 		}
 	}
-	// structured messages (2: commitment a, 4: response z): every leaf edit of their CBOR encoding
+	// structured messages (2: commitment a, 4: response z): every edit of their CBOR encoding
 	for _, m := range []int{2, 4} {
-		root, err := cbor.Parse(msgs[m])
-		if err != nil || !bytes.Equal(cbor.Encode(root), msgs[m]) {
-			panic(engine.HarnessError{Msg: fmt.Sprintf("%s: zk message %d does not round-trip through the CBOR tree: %v", c.name, m, err)})
-		}
-		for _, ed := range enumerateEdits(msgs[m], bitsAll, false) {
+		for idx, ed := range enumerateEdits(msgs[m], bitsAll, false) {
 			x.Case(fmt.Sprintf("%s/zk/msg%d/%s", c.name, m, ed.desc))
-			if bytes.Equal(ed.out, msgs[m]) {
-				continue
-			}
-			// mechanical exemption: the edited bytes decode to the very same value
-			if m == 2 {
-				if v, err := serde.UnmarshalCBOR[A](ed.out); err == nil {
-					if b, err := serde.MarshalCBOR(v); err == nil && bytes.Equal(b, msgs[m]) {
-						exempt++
-						continue
-					}
-				}
-			} else {
-				if v, err := serde.UnmarshalCBOR[Z](ed.out); err == nil {
-					if b, err := serde.MarshalCBOR(v); err == nil && bytes.Equal(b, msgs[m]) {
-						exempt++
-						continue
-					}
-				}
-			}
-			acc, st, _ := zkOnce(c, func(msg int, _ []byte) []byte {
+			acc, st, _ := zkOnce(c, func(msg int, raw []byte) []byte {
 				if msg != m {
 					return nil
 				}
-				return ed.out
-			})
-			if acc {
-				x.Failf("zk/msg-edit-accepted", "%s: verifier accepted although message %d was edited: %s", c.name, m, ed.desc)
-			} else {
-				rejected++
-				stages[stageKey(st)]++
+				return ed.gen(newWalker(raw))
+			}, true)
+			if strings.HasPrefix(st, "ISOLATE:") {
+				// decoded message carries a nil component: repeat this run in a child process
+				cls := strings.TrimPrefix(st, "ISOLATE:")
+				res := runChild(fmt.Sprintf("zk|%s|%d|%d", n.name, m, idx), nil)
+				switch res.outcome {
+				case "ACCEPT":
+					acc, st = true, "accept"
+				case "REJECT":
+					acc, st = false, "isolated-"+res.detail
+				case "PANIC":
+					acc, st = false, "PANIC/"+cls+":"+res.detail
+				default:
+					acc, st = false, "CRASH/"+cls+":"+res.detail
+				}
 			}
+			record(m, ed.desc, ed.class, acc, st)
 		}
 	}
-	x.Observe(c.name, "zk rejected", rejected, "exempt", exempt, fmt.Sprint(stages))
+	x.Observe(c.name, " zk ", fmt.Sprint(stages))
 }
 
 func stageKey(s string) string {
@@ -255,4 +294,30 @@ func stageKey(s string) string {
 		}
 	}
 	return s
+}
+
+// panicClass names the cause class of a panic for the finding key: edits that put a CBOR null (or drop a
+// component so that a field stays nil) are keyed together.
+func panicClass(class, desc string) string {
+	if strings.Contains(desc, "null") {
+		return "null-component"
+	}
+	return class
+}
+
+// nilClass names the kind of the first nil component that the edited value has and the original lacks.
+func nilClass(base, edited []string) string {
+	have := map[string]bool{}
+	for _, p := range base {
+		have[p] = true
+	}
+	for _, p := range edited {
+		if !have[p] {
+			if strings.HasSuffix(p, "]") {
+				return "nil-slice-element"
+			}
+			return "nil-struct-field"
+		}
+	}
+	return "nil-component-removed"
 }
